@@ -27,7 +27,9 @@ PROGRAMS = {
     'FETCH-1-body': (SEL, lambda i: [b'FETCH 1 (BODY[])']),
     'NOOP': (SEL, lambda i: [b'NOOP']),
     'UIDSTORE-3.SILENT': (SEL, lambda i: [
-        b'UID STORE 3 +FLAGS.SILENT (%s)' % (b'$a', b'$b')[i]]),
+        # (system flags: whether a keyword is permitted is the mailbox's
+        # business, a client cannot assume a silent keyword change applied)
+        b'UID STORE 3 +FLAGS.SILENT (%s)' % (b'\\Answered', b'\\Draft')[i]]),
     # holds a message that still lies in new/ (delivered while it had the
     # mailbox selected) *below* a newer one, and looks again
     'NOOP-holding-new': (lambda i: SEL(i) + [
